@@ -259,7 +259,12 @@ func Verif_C17_attach() {
 	h := vfGeom([]uint32{1, 2}, []uint32{1, 2, 3}, "height")
 	s := vfGeom([]uint32{0, 1}, []uint32{0, 1, 2}, "scrollback")
 	t := NewVT(2, s)
+	// the terminal may have been attached to another console before: every field AttachTo does not document as
+	// preserved is arbitrary (a fresh NewVT is the special case of all zeros)
+	t.cursorX, t.cursorY, t.viewportY = zzverif.U32("oldCursorX"), zzverif.U32("oldCursorY"), zzverif.U32("oldViewportY")
+	t.dataOffset = uint(zzverif.U64("oldDataOffset"))
 	t.AttachTo(&vfGrid{w: w, h: h})
+	zzverif.Assert(t.dataOffset == 0, "after attaching, the next byte is stored at the cursor cell (1,1), whatever the terminal did before")
 	zzverif.Assert(len(t.data) == int(w*(h+s)*3), "buffer holds width*(height+scrollback) cells")
 	for i := 0; i+2 < len(t.data); i += 3 {
 		zzverif.Assert(zzverif.And(t.data[i] == ' ', zzverif.And(t.data[i+1] == 7, t.data[i+2] == 0)), "attached terminal is blank in the default colours")
